@@ -403,6 +403,12 @@ class Exec:
                 if isinstance(v, Record) and fld in v.f: v = v.f[fld]
                 else: v = None; break
             if v is not None: return v
+        if loc[0] == 'f' and len(loc[1]) == 4 and loc[1][0] == 'obj' and loc[1][1] == 'l':
+            # the whole local object a member function runs on (`*this` of a call on a local / temporary)
+            try: v = st.store.get(('l', int(loc[1][2]), loc[1][3]))
+            except ValueError: v = None
+            if isinstance(v, Ref): v = st.store.get(v.loc)
+            if isinstance(v, Record): return v
         if loc[0] == 'f' and len(loc[1]) >= 5 and loc[1][0] == 'obj' and loc[1][1] == 'l':
             # member of a local object the callee runs on (this_path = ('obj', 'l', frame, decl)): the local holds a Record
             try: base = ('l', int(loc[1][2]), loc[1][3])
@@ -575,7 +581,7 @@ class Exec:
                 loc = self.loc_of(s, st, fr)
                 if loc: return Ref(loc)
                 v = self._value(s, st, fr)
-                return v if (v is not None and not isinstance(v, (Unknown, Lin, bool))) else Unknown('addr')
+                return v if (v is not None and not isinstance(v, (Unknown, Lin, bool))) else Sym(f'addr@{n.id}')       # the address of something: never null
             if op == '*':
                 v = self._value(s, st, fr)
                 if isinstance(v, Ref) and s.k in ('ref', 'member') and (s.type or s.d.get('decltype') or '').rstrip().endswith(('*', '*const', '* const')):
@@ -749,6 +755,10 @@ class Exec:
         if ll is not None and rl is not None:
             dlt = ll - rl
             if dlt.is_const(): return OPF[op](dlt.c, 0)
+        if op in ('==', '!='):
+            for a_, b_ in ((l, r), (r, l)):
+                if (isinstance(a_, Ref) or (isinstance(a_, Sym) and a_.name.startswith('addr@'))) and isinstance(b_, Lin) and b_.is_const() and b_.c == 0:
+                    return op == '!='         # an address is not the null pointer
         if hasattr(self.dom, 'compare'):
             v = self.dom.compare(self, op, l, r, n, st, fr)
             if v is not None: return v
@@ -830,6 +840,9 @@ class Exec:
             if ol is None:
                 ov = self._value(obj_node, st, fr)
                 ol = ov.loc if isinstance(ov, Ref) else None
+                if ol is None and isinstance(ov, Record):
+                    # a member function called on a temporary object value: give the temporary a location of its own
+                    ol = ('l', fr.id, f'@tmp{obj_node.id}'); st.store[ol] = ov
             elif obj_node.k == 'member' and (obj_node.ftype or '').rstrip().endswith('&'):
                 # a reference member designates the object it was bound to
                 rv_ = self.read(ol, st, obj_node)
